@@ -442,8 +442,7 @@ func c19Bridge(c *Ctx) {
 	c.check(deliver != nil, "handleZmodemStream/helper->remote", c.ipos(read), "what the helper wrote is handed to the remote side as exactly buffer[:n]", "the helper's output is not handed to the remote side as exactly the bytes read")
 	if deliver != nil {
 		empty := func(from, to *ssa.BasicBlock) bool {
-			fs := edgeFactsTo(from, to)
-			return factCmp(fs, token.LEQ, isValue(n), isConstIntV(0)) || factCmp(fs, token.EQL, isValue(n), isConstIntV(0))
+			return factZero(edgeFactsTo(from, to), isValue(n))
 		}
 		over := func(from, to *ssa.BasicBlock) bool { // the session is over / failed: output is ignored on purpose
 			for _, fc := range edgeFactsTo(from, to) {
